@@ -18,6 +18,7 @@ class ATSPAdapter(TSPAdapter):
               "Import ListNotations.\nOpen Scope Z_scope.\n")
     case_type = "atsp_case"
     sol_type = "(atsp_inst * atsp_obs) * list nat * bool"
+    book_type = "atsp_book"      # keys and function inherited from the TSP adapter (Harness/HATSP.v book_obs)
 
     def variants(self, tier):
         return [{"num_loc": n} for n in ([1, 2, 3, 5, 8] if tier == "quick" else [1, 2, 3, 4, 6, 10, 20])]
